@@ -91,3 +91,140 @@ theorem sortStrs_sorted (l : List (List Char)) : (sortStrs l).Pairwise (fun a b 
 theorem mem_sortStrs {a : List Char} {l : List (List Char)} : a ∈ sortStrs l ↔ a ∈ l := List.mem_mergeSort
 
 end Tempren
+
+namespace Tempren
+
+theorem atomEq_iff (a b : KeyAtom) : atomEq a b = true ↔ a = b := by
+  cases a <;> cases b <;> simp [atomEq]
+
+theorem atomLeT_refl (a : KeyAtom) : atomLeT a a = true := by
+  cases a <;> simp [atomLeT, strLe_refl]
+
+theorem atomLeT_total (a b : KeyAtom) : (atomLeT a b || atomLeT b a) = true := by
+  cases a <;> cases b <;> simp [atomLeT]
+  · omega
+  · simpa using strLe_total _ _
+
+theorem atomLeT_trans (a b c : KeyAtom) (h1 : atomLeT a b = true) (h2 : atomLeT b c = true) :
+    atomLeT a c = true := by
+  cases a <;> cases b <;> cases c <;> simp [atomLeT] at h1 h2 ⊢
+  · omega
+  · exact strLe_trans _ _ _ h1 h2
+
+theorem atomLeT_antisymm (a b : KeyAtom) (h1 : atomLeT a b = true) (h2 : atomLeT b a = true) : a = b := by
+  cases a <;> cases b <;> simp [atomLeT] at h1 h2 ⊢
+  · omega
+  · exact strLe_antisymm _ _ h1 h2
+
+theorem tupleLeT_refl (a : List KeyAtom) : tupleLeT a a = true := by
+  induction a with
+  | nil => rfl
+  | cons x t ih => simp [tupleLeT, ih]
+
+theorem tupleLeT_total (a b : List KeyAtom) : (tupleLeT a b || tupleLeT b a) = true := by
+  induction a generalizing b with
+  | nil => simp [tupleLeT]
+  | cons x t ih =>
+    cases b with
+    | nil => simp [tupleLeT]
+    | cons y u =>
+      simp only [tupleLeT]
+      by_cases h : x = y
+      · subst h; simpa using ih u
+      · have h' : ¬ y = x := fun e => h e.symm
+        simp only [h, h', if_false]
+        exact atomLeT_total x y
+
+theorem tupleLeT_trans (a b c : List KeyAtom) (h1 : tupleLeT a b = true) (h2 : tupleLeT b c = true) :
+    tupleLeT a c = true := by
+  induction a generalizing b c with
+  | nil => simp [tupleLeT]
+  | cons x t ih =>
+    cases b with
+    | nil => simp [tupleLeT] at h1
+    | cons y u =>
+      cases c with
+      | nil => simp [tupleLeT] at h2
+      | cons z v =>
+        simp only [tupleLeT] at h1 h2 ⊢
+        by_cases hxy : x = y
+        · subst hxy
+          simp only [if_true] at h1
+          by_cases hxz : x = z
+          · subst hxz
+            simp only [if_true] at h2 ⊢
+            exact ih u v h1 h2
+          · simp only [hxz, if_false] at h2 ⊢
+            exact h2
+        · simp only [hxy, if_false] at h1
+          by_cases hyz : y = z
+          · subst hyz
+            simp only [hxy, if_false]
+            exact h1
+          · simp only [hyz, if_false] at h2
+            by_cases hxz : x = z
+            · subst hxz
+              exact absurd (atomLeT_antisymm x y h1 h2) hxy
+            · simp only [hxz, if_false]
+              exact atomLeT_trans x y z h1 h2
+
+theorem tupleLeT_antisymm (a b : List KeyAtom) (h1 : tupleLeT a b = true) (h2 : tupleLeT b a = true) : a = b := by
+  induction a generalizing b with
+  | nil =>
+    cases b with
+    | nil => rfl
+    | cons y u => simp [tupleLeT] at h2
+  | cons x t ih =>
+    cases b with
+    | nil => simp [tupleLeT] at h1
+    | cons y u =>
+      simp only [tupleLeT] at h1 h2
+      by_cases hxy : x = y
+      · subst hxy
+        simp only [if_true] at h1 h2
+        rw [ih u h1 h2]
+      · have h' : ¬ y = x := fun e => hxy e.symm
+        simp only [hxy, h', if_false] at h1 h2
+        exact absurd (atomLeT_antisymm x y h1 h2) hxy
+
+/-- wherever Python defines `a <= b` on tuples, the total order agrees with it -/
+theorem tupleLeT_agrees (a b : List KeyAtom) (r : Bool) (h : tupleLe? a b = some r) : tupleLeT a b = r := by
+  induction a generalizing b with
+  | nil => simp [tupleLe?] at h; simp [tupleLeT, h]
+  | cons x t ih =>
+    cases b with
+    | nil => simp [tupleLe?] at h; simp [tupleLeT, h]
+    | cons y u =>
+      simp only [tupleLe?] at h
+      simp only [tupleLeT]
+      by_cases hxy : x = y
+      · subst hxy
+        have : atomEq x x = true := (atomEq_iff x x).mpr rfl
+        simp only [this, if_true] at h ⊢
+        exact ih u h
+      · have : atomEq x y = false := by
+          cases he : atomEq x y with
+          | false => rfl
+          | true => exact absurd ((atomEq_iff x y).mp he) hxy
+        simp only [this, Bool.false_eq_true, if_false, hxy] at h ⊢
+        cases x <;> cases y <;> simp [atomLe?] at h <;> simp [atomLeT, h]
+
+variable {α : Type}
+
+theorem sortLe_total (key : α → List KeyAtom) (inv : Bool) (a b : α) :
+    (sortLe key inv a b || sortLe key inv b a) = true := by
+  unfold sortLe; cases inv <;> simp only [if_true, if_false, Bool.false_eq_true]
+  · exact tupleLeT_total _ _
+  · exact tupleLeT_total _ _
+
+theorem sortLe_trans (key : α → List KeyAtom) (inv : Bool) (a b c : α)
+    (h1 : sortLe key inv a b = true) (h2 : sortLe key inv b c = true) : sortLe key inv a c = true := by
+  unfold sortLe at *; cases inv <;> simp only [if_true, if_false, Bool.false_eq_true] at *
+  · exact tupleLeT_trans _ _ _ h1 h2
+  · exact tupleLeT_trans _ _ _ h2 h1
+
+theorem sortLe_of_key_eq (key : α → List KeyAtom) (inv : Bool) (a b : α) (h : key a = key b) :
+    sortLe key inv a b = true := by
+  unfold sortLe; cases inv <;> simp [h, tupleLeT_refl]
+
+end Tempren
